@@ -252,6 +252,8 @@ impl Report {
             self.samples.push(v);
         }
     }
+    /// is this space selected (always, unless a replay names another one)?
+    pub fn wanted_pub(&self, name: &str) -> bool { self.wanted(name) }
     fn wanted(&self, name: &str) -> bool {
         if let Some((s, _)) = &self.args.replay {
             return s == name;
